@@ -1937,10 +1937,11 @@ class Comparator:
 class _ParametersRestorer:
     """Context-manager to handle the reset of parameter values after an update."""
 
-    def __init__(self, *, parameters, restore, refs=None):
+    def __init__(self, *, parameters, restore, refs=None, unset=()):
         self._parameters = parameters
         self._restore = restore
         self._refs = {} if refs is None else refs
+        self._unset = unset
 
     def __enter__(self):
         return self._restore
@@ -1948,6 +1949,11 @@ class _ParametersRestorer:
     def __exit__(self, exc_type, exc_value, exc_tb):
         try:
             self._parameters._update(dict(self._restore, **self._refs))
+            obj = self._parameters.self
+            if obj is not None:
+                for pname in self._unset:
+                    if pname in self._restore and pname not in self._refs:
+                        obj._param__private.values.pop(pname, None)
         finally:
             self._restore = {}
 
@@ -2690,6 +2696,7 @@ class Parameters:
         3. Hello 3. World
         """
         refs = {}
+        unset = []
         if self_.self is not None:
             private = self_.self._param__private
             params = list(kwargs if arg is Undefined else dict(arg, **kwargs))
@@ -2700,8 +2707,11 @@ class Parameters:
                     refs[pname] = private.refs[pname]
                 elif pname in private.async_refs:
                     refs[pname] = private.async_refs[pname]
+            # Parameters the instance holds no value of its own for: it
+            # follows the class default, also after the values are restored
+            unset = [pname for pname in params if pname not in private.values]
         restore = dict(self_._update(arg, **kwargs))
-        return _ParametersRestorer(parameters=self_, restore=restore, refs=refs)
+        return _ParametersRestorer(parameters=self_, restore=restore, refs=refs, unset=unset)
 
     def _update(self_, arg=Undefined, /, **kwargs):
         self_or_cls = self_.self_or_cls
@@ -2910,6 +2920,10 @@ class Parameters:
         # events queued so far have been set aside
         param_values = self_.values()
         params = {name: param_values[name] for name in param_names}
+        # Re-assigning the current value must not make the instance hold a
+        # value of its own where it was following the class default
+        unset = [] if self_.self is None else [
+            name for name in params if name not in self_.self._param__private.values]
         events = self_._events
         watchers = self_._state_watchers
         self_._events  = []
@@ -2927,6 +2941,8 @@ class Parameters:
                 w for w in self_._state_watchers
                 if not any(w is queued for queued in watchers)
             ]
+            for name in unset:
+                self_.self._param__private.values.pop(name, None)
 
     def _update_event_type(self_, watcher, event, triggered):
         """Return an updated Event object with the type field set appropriately."""
